@@ -97,6 +97,15 @@ func sraRound(pkgs []*packages.Package, overlay map[string][]byte) (map[string][
 						return true
 					}
 					named, ok := v.Type().(*types.Named)
+					if ok && named.Obj().Pkg() != nil && named.Obj().Pkg() != pkg.Types && isServitorPath(named.Obj().Pkg().Path()) && !anchorTypes[named.Obj().Pkg().Path()+"."+named.Obj().Name()] {
+						// a new struct type of ANOTHER package of the module (a result object
+						// rebuilt at the call site): its exported fields, their types written
+						// with the names this file imports their packages under
+						if sv := foreignSraVar(pkg, f, v, named); sv != nil {
+							cands[v] = sv
+						}
+						return true
+					}
 					if !ok || named.Obj().Pkg() != pkg.Types || anchorTypes[pkg.PkgPath+"."+named.Obj().Name()] {
 						return true
 					}
@@ -766,7 +775,27 @@ func unboxRound(pkgs []*packages.Package, overlay map[string][]byte, counter *in
 							if !ok || p2.TypesInfo.Uses[id] != types.Object(fobj) {
 								return true
 							}
-							if p2 != pkg || strings.HasSuffix(f2name, "_test.go") || !crossFile(f2) {
+							if strings.HasSuffix(f2name, "_test.go") {
+								okUses = false
+								return true
+							}
+							foreign := p2 != pkg
+							if foreign {
+								// a caller in another package can name the struct and its fields only if
+								// they are exported, and reaches the function as pkgname.F
+								if !ast.IsExported(sname) {
+									okUses = false
+									return true
+								}
+								for _, fn := range fields {
+									if !ast.IsExported(fn) {
+										okUses = false
+									}
+								}
+								if !okUses {
+									return true
+								}
+							} else if !crossFile(f2) {
 								okUses = false
 								return true
 							}
@@ -809,6 +838,52 @@ func unboxRound(pkgs []*packages.Package, overlay map[string][]byte, counter *in
 								return true
 							}
 							*counter++
+							if foreign {
+								// no type texts here: everything is received with := into fresh names and
+								// handed on to the original left-hand sides afterwards
+								sel, isSel := fexpr.(*ast.SelectorExpr)
+								if !isSel {
+									okUses = false
+									return true
+								}
+								qual := string(s2[o2(sel.X.Pos()):o2(sel.X.End())])
+								var recv, after []string
+								for i, l := range as.Lhs {
+									if i == pos {
+										var temps []string
+										for _, fn := range fields {
+											temps = append(temps, fmt.Sprintf("%s_%s_unb%d", lhs.Name, fn, *counter))
+										}
+										recv = append(recv, temps...)
+										var kv []string
+										for j, fn := range fields {
+											kv = append(kv, fn+": "+temps[j])
+										}
+										lit := qual + "." + sname + "{" + strings.Join(kv, ", ") + "}"
+										if as.Tok == token.DEFINE && p2.TypesInfo.Defs[lhs] != nil {
+											after = append(after, lhs.Name+" := "+lit, "_ = "+lhs.Name)
+										} else {
+											after = append(after, lhs.Name+" = "+lit)
+										}
+										continue
+									}
+									ltext := string(s2[o2(l.Pos()):o2(l.End())])
+									if lid, ok := l.(*ast.Ident); ok && lid.Name == "_" {
+										recv = append(recv, "_")
+										continue
+									}
+									t := fmt.Sprintf("_o%d_unb%d", i, *counter)
+									recv = append(recv, t)
+									if lid, ok := l.(*ast.Ident); ok && as.Tok == token.DEFINE && p2.TypesInfo.Defs[lid] != nil {
+										after = append(after, ltext+" := "+t, "_ = "+ltext)
+									} else {
+										after = append(after, ltext+" = "+t)
+									}
+								}
+								stmt := strings.Join(recv, ", ") + " := " + string(s2[o2(call.Pos()):o2(call.End())]) + "\n" + strings.Join(after, "\n")
+								sites = append(sites, siteEdit{f2name, edit{o2(as.Pos()), o2(as.End()), stmt}})
+								return true
+							}
 							var temps []string
 							var decl bytes.Buffer
 							for i, fn := range fields {
@@ -1010,4 +1085,49 @@ func portableFieldTypes(pkg *packages.Package, decl *ast.StructType, declFile, t
 		})
 	}
 	return ok
+}
+
+// foreignSraVar: the scalar-replacement description of a local whose type is
+// a struct of another package of the module; nil if a field is unexported or
+// a field type cannot be written in file f.
+func foreignSraVar(pkg *packages.Package, f *ast.File, v *types.Var, named *types.Named) *sraVar {
+	st, ok := named.Underlying().(*types.Struct)
+	if !ok || st.NumFields() == 0 || st.NumFields() > 8 || named.TypeArgs().Len() > 0 {
+		return nil
+	}
+	imports := map[string]string{}
+	for _, im := range f.Imports {
+		p := strings.Trim(im.Path.Value, "\"")
+		name := ""
+		if im.Name != nil {
+			name = im.Name.Name
+		} else if ip := pkg.Imports[p]; ip != nil {
+			name = ip.Name
+		}
+		imports[p] = name
+	}
+	okTypes := true
+	qual := func(p *types.Package) string {
+		if p == pkg.Types {
+			return ""
+		}
+		if n, ok := imports[p.Path()]; ok && n != "" && n != "_" && n != "." {
+			return n
+		}
+		okTypes = false
+		return p.Name()
+	}
+	sv := &sraVar{obj: v, st: st, named: named}
+	for i := 0; i < st.NumFields(); i++ {
+		fl := st.Field(i)
+		if !fl.Exported() || fl.Embedded() {
+			return nil
+		}
+		sv.fields = append(sv.fields, fl.Name())
+		sv.ftext = append(sv.ftext, types.TypeString(fl.Type(), qual))
+	}
+	if !okTypes {
+		return nil
+	}
+	return sv
 }
